@@ -235,10 +235,55 @@ func init() {
 				Step: c06Step, SeedStep: true,
 				Required: []string{"slash.checked", "slash.callback_aborted"},
 			}
-			if tier == "thorough" {
-				return []*engine.Scenario{mk("c06-slash", [][]world.Op{s1, s2, s3, s4, s5}, []int{3, 3, 0, 2, 0}, 7), ab}
+			// an asset with a non-representable share price (5/6) is emptied and deleted by governance, then validators holding
+			// the other asset are slashed: whatever the full exits left behind must not keep the bonded slash from being applied
+			// (six seeds: every choice of the validator that never held the emptied asset, either exit order)
+			dustCfg := c07Config()
+			dust := &engine.Scenario{
+				Property: "C06", Name: "c06-deleted-asset-dust", Cfg: dustCfg, Stores: world.ModuleStores,
+				ClassNames: classNames, Budgets: tierPick(tier, []int{2, 1, 0, 0, 1}, []int{3, 2, 0, 1, 1}), MaxDepth: tierPick(tier, 4, 6),
+				NewRef: func(w *world.World, root *engine.Node) engine.Ref { return newPendRef() },
+				Ops: func(n *engine.Node) []world.Op {
+					var ops []world.Op
+					s := n.Snap()
+					for _, p := range s.Pos {
+						if p.Denom == "bbb" {
+							ops = append(ops, world.Op{K: world.KUndelegateAll, D: p.D, V: p.V, Denom: "bbb", Class: ClsUser})
+						}
+					}
+					if a, ok := s.Assets["bbb"]; ok && a.TotalTokens.IsZero() {
+						ops = append(ops, world.Op{K: world.KGovDelete, Denom: "bbb", Class: ClsGov, Args: map[string]string{"signer": "authority"}})
+					} else if !ok {
+						for _, v := range []int{0, 1, 2} {
+							ops = append(ops, world.Op{K: world.KSlash, V: v, F: "0.05", Class: ClsSlash}, world.Op{K: world.KSlash, V: v, F: "0.5", Class: ClsSlash})
+						}
+						ops = append(ops, world.Op{K: world.KBlock, Dt: int64(U), Class: ClsBlock})
+					}
+					return ops
+				},
+				Step: func(x *engine.Exec) []engine.Failure {
+					if !x.Res.Rejected && x.Op.K == world.KSlash {
+						if _, ok := x.Prev.Snap().Assets["bbb"]; !ok {
+							x.Cnt.Inc("slash.after_emptied_asset_was_deleted")
+						}
+					}
+					return c06Step(x)
+				}, SeedStep: true,
+				Required: []string{"slash.checked", "slash.after_emptied_asset_was_deleted"},
 			}
-			return []*engine.Scenario{mk("c06-slash", [][]world.Op{s1, s2, s3, s4, s5}, []int{2, 2, 0, 1, 0}, 5), ab}
+			for _, h := range [][2]int{{0, 1}, {1, 2}, {0, 2}} {
+				dust.Seeds = append(dust.Seeds, []world.Op{
+					opDel(0, 0, "aaa", "1000"), opDel(0, 1, "aaa", "700"), opDel(1, 2, "aaa", "300"),
+					opDel(0, h[0], "bbb", "4000000000"), opDel(1, h[1], "bbb", "2000000000"), opSlash(h[1], "0.5"),
+				}, []world.Op{
+					opDel(0, 0, "aaa", "1000"), opDel(0, 1, "aaa", "700"), opDel(1, 2, "aaa", "300"),
+					opDel(0, h[1], "bbb", "4000000000"), opDel(1, h[0], "bbb", "2000000000"), opSlash(h[0], "0.5"),
+				})
+			}
+			if tier == "thorough" {
+				return []*engine.Scenario{mk("c06-slash", [][]world.Op{s1, s2, s3, s4, s5}, []int{3, 3, 0, 2, 0}, 7), ab, dust}
+			}
+			return []*engine.Scenario{ab, dust, mk("c06-slash", [][]world.Op{s1, s2, s3, s4, s5}, []int{2, 2, 0, 1, 0}, 5)}
 		},
 		Assumptions: []string{
 			"fractions {0.01%, 1%, 5%, 1/3, 50%, 99%, 100%}; the case f=1 with the slashed validator holding every share of the asset (g undefined) is excluded from the proportionality check, staked total and custody are still checked",
